@@ -49,8 +49,20 @@ def _replay_batch(args):
             geom.VARY = random.Random(h + 7) if prop in VARY_PROPS else None
             geom.G.set_eps()            # every case starts from the default tolerance (a leaked setting must not spread)
             res = mod.replay_case(case, tag, rng, tier)
-        except Exception as e:   # noqa: BLE001 - a crash of the harness itself is a machinery failure
+        except Exception as e:   # noqa: BLE001
             import traceback
+            tb = traceback.extract_tb(e.__traceback__)
+            if tb and "Geometry3D" in tb[-1].filename:
+                # the LIBRARY raised on a valid case outside a guarded call (e.g. while an operand was being built or moved
+                # into place): that is an observation about the library, not a failure of the machinery
+                site = "%s:%s" % (os.path.basename(tb[-1].filename), tb[-1].name)
+                out["n"] += 1
+                out["mism"].append({"prop": prop, "tag": tag, "case": case, "clause": "%s.library_exception" % prop,
+                                    "sig": {"op": "replay", "obs": "raise:%s@%s" % (type(e).__name__, site)},
+                                    "detail": "the library raised %s at %s while the case was being set up: %s" % (type(e).__name__, site, str(e)[:100]),
+                                    "expected": None, "observed": {"k": "Exception", "cls": type(e).__name__, "site": site}, "pose": None})
+                continue
+            # a crash of the harness itself is a machinery failure
             out.setdefault("harness_errors", []).append(traceback.format_exc()[-1500:])
             continue
         out["n"] += 1
